@@ -175,6 +175,14 @@ def crafted_factory_history(ctx, rng):
         b_extra = [f'HP:{i:07d}' for i in rng.sample(range(1, 499), rng.randrange(2, 6))]
         A = [(e, 'HP:0000900') for e in a_extra] + [(x, 'HP:0000900')]
         B = [(x, b_extra[0])] + [(e, 'HP:0000950') for e in b_extra] + [('HP:0000950', 'HP:0000960')]
+        # the long-lived factories first get a list they REJECT half-way (a self-loop / a two-cycle sharing terms and edges with B):
+        # whatever they had noted down for it must be gone when the next list comes
+        for bad in (A + [(x, x)], B + [(b_extra[0], x)], [(x, b_extra[0]), (b_extra[0], x)]):
+            for f in gl.FACTORIES:
+                try:
+                    gl.build_impl(f, bad, shared=True)
+                except Exception:  # noqa
+                    pass
         for first, second in ((A, B), (B[::-1], A[::-1]), (A, B[::-1])):
             cases = [{'factory': f, 'edges': lst, 'model_edges': lst, 'queries': shape_queries(lst), 'variant': 'base'}
                      for lst in (first, second) for f in gl.FACTORIES]
